@@ -8,19 +8,19 @@ Definition in_disc (c : CircR) (x y : R) : Prop :=
   0 <= r c /\ (x - cx c) * (x - cx c) + (y - cy c) * (y - cy c) <= r c * r c.
 
 Lemma rect_point_spec q x y : rect_containsPoint q x y = true <-> in_rect q x y.
-Proof. unfold rect_containsPoint, in_rect. rewrite !andb_true_iff, !Rgeb_true, !Rleb_true. lra. Qed.
+Proof. unfold rect_containsPoint, in_rect. rewrite ?andb_true_iff, ?Rgeb_true, ?Rleb_true. lra. Qed.
 
 Lemma circ_point_spec c x y : circ_containsPoint c x y = true <-> in_disc c x y.
-Proof. unfold circ_containsPoint, in_disc. rewrite Rgeb_true. apply hypot_le_iff. Qed.
+Proof. unfold circ_containsPoint, in_disc. rewrite ?Rgeb_true, ?Rleb_true. apply hypot_le_iff. Qed.
 
 (** the disc test is the closed Euclidean disc: distance to the centre <= r *)
 Lemma circ_point_dist c x y : circ_containsPoint c x y = true <-> hypot (x - cx c) (y - cy c) <= r c.
-Proof. unfold circ_containsPoint. apply Rgeb_true. Qed.
+Proof. unfold circ_containsPoint. rewrite ?Rgeb_true, ?Rleb_true. reflexivity. Qed.
 
 Lemma rect_rect_sound o i : rect_containsRegion_rect o i = true ->
   forall x y, rect_containsPoint i x y = true -> rect_containsPoint o x y = true.
 Proof.
-  unfold rect_containsRegion_rect. rewrite !andb_true_iff, !Rgeb_true, !Rleb_true.
+  unfold rect_containsRegion_rect. rewrite ?andb_true_iff, ?Rgeb_true, ?Rleb_true.
   intros H x y Hi. apply rect_point_spec in Hi. apply rect_point_spec. unfold in_rect in *. lra.
 Qed.
 
@@ -30,7 +30,7 @@ Proof. intros Hr H. split; apply Rnot_lt_le; intro; nra. Qed.
 Lemma rect_circ_sound o i : rect_containsRegion_circ o i = true ->
   forall x y, circ_containsPoint i x y = true -> rect_containsPoint o x y = true.
 Proof.
-  unfold rect_containsRegion_circ. rewrite !andb_true_iff, !Rgeb_true, !Rleb_true.
+  unfold rect_containsRegion_circ. rewrite ?andb_true_iff, ?Rgeb_true, ?Rleb_true.
   intros (((A & B) & C) & D) x y Hi.
   apply circ_point_spec in Hi. destruct Hi as (Hr & Hi). apply rect_point_spec. unfold in_rect.
   pose proof (Rle_0_sqr (x - cx i)) as Qx. pose proof (Rle_0_sqr (y - cy i)) as Qy. unfold Rsqr in Qx, Qy.
